@@ -433,3 +433,37 @@ func (w *World) TraceTail(n int) []string {
 
 // PointCountLocked is PointCount with Mu held.
 func (w *World) PointCountLocked(point string) int { return w.pointCount[point] }
+
+// readerQuiet: the read routine is paused, done, or parked in Read; Mu held.
+func (w *World) readerQuiet() bool {
+	switch w.readerState {
+	case "paused", "done", "":
+		return true
+	}
+	return w.readerParked()
+}
+
+func (w *World) readerParked() bool {
+	if w.readerState != "run" || len(w.Conns) == 0 {
+		return false
+	}
+	c := w.Conns[len(w.Conns)-1]
+	return c.readWaiting > 0 && c.avail() == 0 && !c.closed && c.pendingReadErr() == nil && !c.pendingStall
+}
+
+// ReaderParked tells whether the read routine sits in Read with nothing to
+// deliver, i.e. inside a ReadSlices invocation.
+func (w *World) ReaderParked() bool {
+	w.Mu.Lock()
+	defer w.Mu.Unlock()
+	return w.readerParked()
+}
+
+// WaitReaderQuiet waits until the read routine is paused, done or parked,
+// regardless of other calls in progress.
+func (w *World) WaitReaderQuiet(timeout time.Duration) bool {
+	return w.WaitUntil(timeout, w.readerQuiet)
+}
+
+// ReaderQuietLocked is readerQuiet for use inside WaitUntil.
+func (w *World) ReaderQuietLocked() bool { return w.readerQuiet() }
